@@ -475,12 +475,20 @@ class Effects:
                 for p in paths(self.repo, m):
                     for e in p.events:
                         if e.kind == 'setattr' and e.data[0] == SELF and e.data[1] == attr:
-                            v = e.data[2]
-                            if v[0] == 'attr' and v[1] == SELF:
-                                for c2 in family:
-                                    t = self.repo.find_method(c2, v[2])
-                                    if t is not None and t not in out:
-                                        out.append(t)
+                            # every alternative of a conditional expression is a candidate
+                            alts, work = [], [e.data[2]]
+                            while work:
+                                v = work.pop()
+                                if v[0] == 'ifexp':
+                                    work += [v[2], v[3]]
+                                else:
+                                    alts.append(v)
+                            for v in alts:
+                                if v[0] == 'attr' and v[1] == SELF:
+                                    for c2 in family:
+                                        t = self.repo.find_method(c2, v[2])
+                                        if t is not None and t not in out:
+                                            out.append(t)
         self._alias[key] = out
         return out
 
